@@ -89,6 +89,8 @@ func (fr *Frame) doCallCommon(ins ssa.Instruction, c *ssa.CallCommon, pc *string
 		for _, a := range args {
 			actuals = append(actuals, []string{a})
 		}
+		fr.applyMC = mc
+		defer func() { fr.applyMC = nil }()
 		return fr.applyContract(ins, fc, callee, c, actuals, pc, st, freshResults)
 	}
 	if vc.g.noEffect(names) {
@@ -200,6 +202,9 @@ func (fr *Frame) applyContract(ins ssa.Instruction, fc *FuncContract, callee *ss
 	}
 	for i, p := range sigInfo.params {
 		env.vars[p.name] = tv{t: actuals[i][0], ty: p.ty}
+	}
+	if fr.applyMC != nil {
+		fr.bindFreeVarsEnv(env, fr.applyMC)
 	}
 	key := fc.Key
 	fr.callOrd[key]++
@@ -1340,4 +1345,44 @@ func instantiateSig(si *sigInfo, callee *ssa.Function, c *ssa.CallCommon) (*sigI
 		}
 	}
 	return out, bind
+}
+
+// bindFreeVarsEnv: the contract of a closure may mention the variables it captures; at a call of the closure they are
+// bound to what the MakeClosure instruction captured (cells for variables captured by reference).
+func (fr *Frame) bindFreeVarsEnv(env *SpecEnv, mc *ssa.MakeClosure) {
+	fn, ok := mc.Fn.(*ssa.Function)
+	if !ok {
+		return
+	}
+	owner := fr
+	for owner != nil {
+		if _, ok := owner.vals[mc]; ok {
+			break
+		}
+		owner = owner.parent
+	}
+	if owner == nil {
+		owner = fr
+	}
+	for i, fv := range fn.FreeVars {
+		if i >= len(mc.Bindings) {
+			break
+		}
+		b := mc.Bindings[i]
+		if _, shadow := env.vars[fv.Name()]; shadow {
+			continue
+		}
+		if l, ok := owner.locs[b]; ok {
+			env.lazy[fv.Name()] = l
+			continue
+		}
+		if _, seen := owner.vals[b]; !seen {
+			continue
+		}
+		if _, isPtr := fv.Type().Underlying().(*types.Pointer); isPtr {
+			env.lazy[fv.Name()] = fr.vc.locOfPtr(owner.v1(b), fv.Type())
+			continue
+		}
+		env.vars[fv.Name()] = tv{t: owner.v1(b), ty: fv.Type()}
+	}
 }
